@@ -19,7 +19,7 @@ class Job:
     """one exhaustive exploration of one harness instance"""
 
     def __init__(self, prop, harness, params=None, W=40, max_paths=20000, wall=300.0, label=None,
-                 bounds=None, validate=2, partial_ok=False, conc_cap=4096):
+                 bounds=None, validate=2, partial_ok=False, conc_cap=4096, cross=False):
         self.prop = prop
         self.harness = harness          # 'module:function' below jv.props
         self.params = params or {}
@@ -31,6 +31,7 @@ class Job:
         self.validate = validate        # number of passing paths cross-validated concretely
         self.partial_ok = partial_ok    # explicitly sampled (non exhaustive) part
         self.conc_cap = conc_cap
+        self.cross = cross              # second solver (cvc5) on every claim query
 
     def as_dict(self):
         return dict(self.__dict__)
@@ -95,6 +96,7 @@ def run_job(jd):
     try:
         fn = resolve(jd['harness'])
         ex = symx.Explorer(W=jd['W'], max_paths=jd['max_paths'], wall_budget=jd['wall'], conc_cap=jd.get('conc_cap', 4096))
+        ex.cross = bool(jd.get('cross'))
         validated = [0]
         mismatches = []
         samples = []
@@ -146,7 +148,7 @@ def run_job(jd):
         res.update({
             'paths': ex.paths_done, 'aborted': ex.paths_aborted, 'stopped': ex.paths_stopped,
             'decisions': ex.decisions, 'forks': ex.forks, 'sat': ex.n_sat, 'unsat': ex.n_unsat,
-            'unknown': ex.n_unknown, 'cached': ex.n_cached, 'solver_time': round(ex.solver_time, 3),
+            'unknown': ex.n_unknown, 'cached': ex.n_cached, 'cross': ex.n_cross, 'solver_time': round(ex.solver_time, 3),
             'witness': ex.witness_reached, 'claims': {k: c.as_dict() for k, c in ex.claims.items()},
             'validated': validated[0], 'mismatches': mismatches[:3], 'samples': samples,
             'notes': ex.notes,
